@@ -316,13 +316,6 @@ Section PairBlock.
 End PairBlock.
 
 (* ---------------------------------------------------------------- the expander stage of a block kind *)
-Definition stage_tags (k : ekind) : string * string :=
-  match k with
-  | KState => (stag "__TAG_PS_BEGIN__", stag "__TAG_PS_END__") | KEvent => (stag "__TAG_PE_BEGIN__", stag "__TAG_PE_END__")
-  | KAction => (stag "__TAG_PA_BEGIN__", stag "__TAG_PA_END__") | KGuard => (stag "__TAG_PG_BEGIN__", stag "__TAG_PG_END__")
-  | KStruct => (stag "__TAG_STRUCT_BEGIN__", stag "__TAG_STRUCT_END__") | KProto => (stag "__TAG_PROTOMSG_BEGIN__", stag "__TAG_PROTOMSG_END__")
-  | KMsg => (stag "__TAG_MSG_BEGIN__", stag "__TAG_MSG_END__")
-  end.
 Definition inner_of_kind (k : ekind) (items : list string) : list string -> option string -> option (list string) :=
   match k with KStruct | KProto | KMsg => inner_proto items | _ => inner_second items end.
 
@@ -334,11 +327,14 @@ Lemma stage_in_source m k :
           (second_stages ++ second_stages_iface) = true.
 Proof. destruct k; reflexivity. Qed.
 
-Lemma block_lines_facts k :
-  let bl := begin_line (block_word k) in let el := end_line (block_word k) in
-  hasSpecificTag bl (fst (stage_tags k)) = true /\ hasSpecificTag bl (snd (stage_tags k)) = false /\ hasDefault bl = false
-  /\ hasSpecificTag el (fst (stage_tags k)) = false /\ hasSpecificTag el (snd (stage_tags k)) = true.
-Proof. destruct k; vm_compute; auto. Qed.
+Lemma block_lines_facts tags bl el : block_lines_ok tags bl el = true ->
+  hasSpecificTag bl (fst tags) = true /\ hasSpecificTag bl (snd tags) = false /\ hasDefault bl = false
+  /\ hasSpecificTag el (fst tags) = false /\ hasSpecificTag el (snd tags) = true.
+Proof.
+  unfold block_lines_ok. intros H. apply andb_prop in H as [H _]. apply andb_prop in H as [H _]. apply andb_prop in H as [H _].
+  apply andb_prop in H as [H E2]. apply andb_prop in H as [H E1]. apply andb_prop in H as [H B3]. apply andb_prop in H as [B1 B2].
+  apply negb_true_iff in B2, B3, E1. auto.
+Qed.
 
 Lemma inner_block k items body :
   forallb (body_line_ok (keys_of k)) body = true -> block_wf (table_of_kind k) items body = true ->
@@ -351,15 +347,16 @@ Qed.
 
 (* PairExpander.Expand of the block's stage: the text before the block is kept, the block (begin line, body, end line) is
    replaced by the reference block, and the expander continues on the rest from its initial state *)
-Theorem block_stage k items pre body rest :
+Theorem block_stage k ib ie items pre body rest :
   let bt := fst (stage_tags k) in let et := snd (stage_tags k) in
   forallb (not_be bt et) pre = true -> forallb (not_be bt et) (map render_line body) = true ->
-  forallb (body_line_ok (keys_of k)) body = true -> block_wf (table_of_kind k) items body = true ->
-  pair_expand bt et (inner_of_kind k items) (pre ++ render_item16 (Block k body) ++ rest)
+  item16_ok (Block k ib ie body) = true -> block_wf (table_of_kind k) items body = true ->
+  pair_expand bt et (inner_of_kind k items) (pre ++ render_item16 (Block k ib ie body) ++ rest)
   = option_map (fun t => pre ++ ref_block (table_of_kind k) items body ++ t)
                (pair_go bt et (inner_of_kind k items) false [] None rest).
 Proof.
-  intros bt et Hpre Hnb Hb W. destruct (block_lines_facts k) as (B1 & B2 & B3 & E1 & E2).
+  intros bt et Hpre Hnb Hok W. cbn [item16_ok] in Hok. apply andb_prop in Hok as [Hl Hb].
+  destruct (block_lines_facts _ _ _ Hl) as (B1 & B2 & B3 & E1 & E2).
   unfold pair_expand. cbn [render_item16 app]. rewrite <- app_assoc. cbn [app].
   rewrite (pair_block bt et (inner_of_kind k items) pre _ (map render_line body) _ rest Hpre Hnb B1 B2 B3 E1 E2).
   rewrite (inner_block k items body Hb W). reflexivity.
